@@ -164,6 +164,10 @@ int ex_list(char **ls, int size);
 #define EXLEN	512		/* ex line length */
 #define xb 	ex_lbuf()
 
+#ifdef NEATVI_VERIF
+void neatvi_verif_progress(void);
+#endif
+
 /* process management */
 char *cmd_pipe(char *cmd, char *ibuf, int oproc);
 char *cmd_unix(char *path, char *ibuf);
